@@ -42,6 +42,10 @@ struct World {
   std::atomic<int> nextId{0};
   std::atomic<int> runs[kMax];
   std::atomic<int> left[kMax];
+  // written by the task body as PLAIN memory and read by a waiter right after wait() / tryWait()==true returned,
+  // before any atomic of the harness: the only ordering between the two is the library's completion edge, so a
+  // missing release/acquire there is a data race on this word (C10 under TSan) - and a stale value otherwise
+  int plain[kMax];
   std::atomic<int> submitTid[kMax];
   std::atomic<int> submitReturned[kMax];
   std::atomic<int> isFq[kMax];
@@ -76,6 +80,7 @@ struct World {
     for (int i = 0; i < kMax; ++i) {
       runs[i] = 0;
       left[i] = 0;
+      plain[i] = 0;
       submitTid[i] = -2;
       submitReturned[i] = 0;
       isFq[i] = 0;
@@ -161,6 +166,7 @@ void body(World& w, int id, int code, int depth, AnySet* owner) {
       w.threwFlag[id] = 1;
       w.thrown.fetch_add(1);
       w.inflightBodies.fetch_sub(1);
+      w.plain[id] = id + 1;
       w.left[id] = 1;
       throw Tagged{id};
     }
@@ -216,6 +222,7 @@ void body(World& w, int id, int code, int depth, AnySet* owner) {
       break;
   }
   w.inflightBodies.fetch_sub(1);
+  w.plain[id] = id + 1;
   w.left[id] = 1;
   dsched_progress();
 }
@@ -236,8 +243,8 @@ std::vector<std::string> toks(const std::string& s) {
 
 // A program-level task set: either TaskSet or ConcurrentTaskSet behind one interface
 struct AnySet {
-  std::unique_ptr<dispenso::TaskSet> ts;
-  std::unique_ptr<dispenso::ConcurrentTaskSet> cts;
+  vf::aligned_ptr<dispenso::TaskSet> ts;
+  vf::aligned_ptr<dispenso::ConcurrentTaskSet> cts;
   SetRec rec;
   int setIdx = -1;
   template <typename F>
@@ -439,6 +446,13 @@ void producer(World& w, const std::string& prog, dispenso::ConcurrentTaskSet* G,
         done = s.tryWait((size_t)k);
       else
         s.wait();
+      if (done && (w.oracles & O_BARRIER))
+        for (int id : s.rec.ids) { // first thing after the call returned: plain reads of what the tasks wrote
+          int v = w.plain[id];
+          if (v != id + 1 && !(s.rec.mayCancel && v == 0))
+            c.fail("barrier-payload", std::string(isTry ? "tryWait(true)" : "wait()") + " returned but the plain word task " + std::to_string(id) + " writes last reads " +
+                                          std::to_string(v));
+        }
     } catch (const Tagged& t) {
       threw = true;
       noteDelivered(w, t, true);
@@ -492,9 +506,9 @@ void producer(World& w, const std::string& prog, dispenso::ConcurrentTaskSet* G,
         if (mult < 1)
           mult = 1;
         if (kind == 't')
-          s->ts = std::make_unique<dispenso::TaskSet>(*w.pool, (ssize_t)mult);
+          s->ts = vf::make_aligned<dispenso::TaskSet>(*w.pool, (ssize_t)mult);
         else
-          s->cts = std::make_unique<dispenso::ConcurrentTaskSet>(
+          s->cts = vf::make_aligned<dispenso::ConcurrentTaskSet>(
               *w.pool, kind == 'l' ? dispenso::TaskCost::kLightweight : dispenso::TaskCost::kHeavy, (ssize_t)mult);
         stack.push_back(std::move(s));
       } else if (!top) {
@@ -567,7 +581,7 @@ void runProgram(Case& c, unsigned oracles) {
   w.nPool = (int)n;
   c.phase = "run";
   {
-    auto pool = std::make_unique<dispenso::ThreadPool>((size_t)n, (size_t)mult);
+    auto pool = vf::make_aligned<dispenso::ThreadPool>((size_t)n, (size_t)mult);
     w.pool = pool.get();
     if (poll)
       pool->setSignalingWake(false, std::chrono::microseconds(200));
@@ -575,9 +589,9 @@ void runProgram(Case& c, unsigned oracles) {
     if (idle)
       dsched_sleep_ns((uint64_t)idle * 1000000ull); // let workers park first
     {
-      std::unique_ptr<dispenso::ConcurrentTaskSet> G;
+      vf::aligned_ptr<dispenso::ConcurrentTaskSet> G;
       if (useG)
-        G = std::make_unique<dispenso::ConcurrentTaskSet>(*pool, c.p.i("Gheavy", 0) ? dispenso::TaskCost::kHeavy : dispenso::TaskCost::kLightweight);
+        G = vf::make_aligned<dispenso::ConcurrentTaskSet>(*pool, c.p.i("Gheavy", 0) ? dispenso::TaskCost::kHeavy : dispenso::TaskCost::kLightweight);
       std::vector<std::vector<int>> gIds((size_t)P + 1);
       std::vector<std::thread> th;
       for (long p = 1; p < P; ++p) {
@@ -939,8 +953,8 @@ void runC07(Case& c) {
       dsched_progress();
     };
     c.phase = "submit";
-    std::unique_ptr<dispenso::TaskSet> ts;
-    std::unique_ptr<dispenso::ConcurrentTaskSet> cts;
+    vf::aligned_ptr<dispenso::TaskSet> ts;
+    vf::aligned_ptr<dispenso::ConcurrentTaskSet> cts;
     iw.watch = 1;
     switch (path) {
       case 0:
@@ -955,34 +969,34 @@ void runC07(Case& c) {
         pool.scheduleBulk((size_t)k, [&](size_t) { return task; });
         break;
       case 3:
-        ts = std::make_unique<dispenso::TaskSet>(pool);
+        ts = vf::make_aligned<dispenso::TaskSet>(pool);
         for (long i = 0; i < k; ++i)
           ts->schedule(task);
         break;
       case 4:
-        ts = std::make_unique<dispenso::TaskSet>(pool);
+        ts = vf::make_aligned<dispenso::TaskSet>(pool);
         ringPath = (k * 4 >= n && k <= n);
         ts->scheduleBulk((size_t)k, [&](size_t) { return task; });
         break;
       case 5:
-        ts = std::make_unique<dispenso::TaskSet>(pool);
+        ts = vf::make_aligned<dispenso::TaskSet>(pool);
         ts->scheduleBulk((size_t)k, [&](size_t) { return task; }, dispenso::ForceQueuingTag());
         break;
       case 6:
       case 8:
-        cts = std::make_unique<dispenso::ConcurrentTaskSet>(pool, path == 6 ? dispenso::TaskCost::kLightweight : dispenso::TaskCost::kHeavy);
+        cts = vf::make_aligned<dispenso::ConcurrentTaskSet>(pool, path == 6 ? dispenso::TaskCost::kLightweight : dispenso::TaskCost::kHeavy);
         for (long i = 0; i < k; ++i)
           cts->schedule(task);
         break;
       case 7:
       case 9:
-        cts = std::make_unique<dispenso::ConcurrentTaskSet>(pool, path == 7 ? dispenso::TaskCost::kLightweight : dispenso::TaskCost::kHeavy);
+        cts = vf::make_aligned<dispenso::ConcurrentTaskSet>(pool, path == 7 ? dispenso::TaskCost::kLightweight : dispenso::TaskCost::kHeavy);
         ringPath = (path == 7 && k * 4 >= n && k <= n);
         cts->scheduleBulk((size_t)k, [&](size_t) { return task; });
         break;
       case 10:
       case 11: {
-        ts = std::make_unique<dispenso::TaskSet>(pool);
+        ts = vf::make_aligned<dispenso::TaskSet>(pool);
         dispenso::ParForOptions o;
         o.wait = false;
         o.defaultChunking = path == 10 ? dispenso::ParForChunking::kStatic : dispenso::ParForChunking::kAdaptive;
@@ -1054,7 +1068,7 @@ void runC09(Case& c) {
   std::atomic<int> bodies{0};
   int aliveBefore = dsched_count_alive();
   {
-    auto pool = std::make_unique<dispenso::ThreadPool>((size_t)n);
+    auto pool = vf::make_aligned<dispenso::ThreadPool>((size_t)n);
     if (poll || action == 3)
       pool->setSignalingWake(false, std::chrono::microseconds(period));
     if (pre == 1)
@@ -1201,13 +1215,13 @@ void runC08(Case& c) {
   w.nPool = (int)n;
   long Kfresh = -1, Kafter = -1, nFinal = n;
   {
-    auto pool = std::make_unique<dispenso::ThreadPool>((size_t)n, (size_t)mult);
+    auto pool = vf::make_aligned<dispenso::ThreadPool>((size_t)n, (size_t)mult);
     w.pool = pool.get();
     c.phase = "history";
     {
-      std::unique_ptr<dispenso::ConcurrentTaskSet> G;
+      vf::aligned_ptr<dispenso::ConcurrentTaskSet> G;
       if (c.p.i("G"))
-        G = std::make_unique<dispenso::ConcurrentTaskSet>(*pool);
+        G = vf::make_aligned<dispenso::ConcurrentTaskSet>(*pool);
       std::vector<std::vector<int>> gIds((size_t)P + 1);
       std::vector<std::thread> th;
       for (long p = 1; p < P; ++p) {
@@ -1444,10 +1458,10 @@ void runC04(Case& c) {
   long kind = c.p.i("kind");
   c.phase = "run";
   if (kind == 0)
-    runC04T<dispenso::TaskSet>(c, [](dispenso::ThreadPool& p, dispenso::ParentCascadeCancel pc) { return std::make_unique<dispenso::TaskSet>(p, pc); });
+    runC04T<dispenso::TaskSet>(c, [](dispenso::ThreadPool& p, dispenso::ParentCascadeCancel pc) { return vf::make_aligned<dispenso::TaskSet>(p, pc); });
   else
     runC04T<dispenso::ConcurrentTaskSet>(c, [kind](dispenso::ThreadPool& p, dispenso::ParentCascadeCancel pc) {
-      return std::make_unique<dispenso::ConcurrentTaskSet>(p, pc, (dispenso::ssize_t)4, kind == 1 ? dispenso::TaskCost::kLightweight : dispenso::TaskCost::kHeavy);
+      return vf::make_aligned<dispenso::ConcurrentTaskSet>(p, pc, (dispenso::ssize_t)4, kind == 1 ? dispenso::TaskCost::kLightweight : dispenso::TaskCost::kHeavy);
     });
 }
 
@@ -1481,14 +1495,14 @@ int chainDepth(Case& c, long n, long family, long L) {
     gate.close(pool, n);
     for (long i = 0; i < 3 * n + 2; ++i)
       pool.schedule([&]() { filler.fetch_add(1); }, dispenso::ForceQueuingTag());
-    std::unique_ptr<dispenso::TaskSet> ts;
-    std::unique_ptr<dispenso::ConcurrentTaskSet> cts;
+    vf::aligned_ptr<dispenso::TaskSet> ts;
+    vf::aligned_ptr<dispenso::ConcurrentTaskSet> cts;
     if (family == 1)
-      ts = std::make_unique<dispenso::TaskSet>(pool, (ssize_t)1);
+      ts = vf::make_aligned<dispenso::TaskSet>(pool, (ssize_t)1);
     if (family == 2 || family == 4)
-      cts = std::make_unique<dispenso::ConcurrentTaskSet>(pool, dispenso::TaskCost::kLightweight, (ssize_t)1);
+      cts = vf::make_aligned<dispenso::ConcurrentTaskSet>(pool, dispenso::TaskCost::kLightweight, (ssize_t)1);
     if (family == 3)
-      cts = std::make_unique<dispenso::ConcurrentTaskSet>(pool, dispenso::TaskCost::kHeavy, (ssize_t)1);
+      cts = vf::make_aligned<dispenso::ConcurrentTaskSet>(pool, dispenso::TaskCost::kHeavy, (ssize_t)1);
     int owner = dsched_tid();
     link = [&](long i) {
       ++t_depth;
